@@ -68,13 +68,17 @@ def run(ctx):
     ctx.assumptions.append("real thread interleavings are sampled (shaken), not enumerated; timing margin = 3 x timeout + 2 s")
     pair_lockstep(ctx)
     pause_check(ctx)
+    query_break_check(ctx)
     scenarios = [e2e.gen_scenario(ctx.rng) for _ in range(ctx.n(120, 4000))]
     # directed scenarios: simultaneous release, abort during release, simultaneous abort
     for req_last, acc in (("release", "release"), ("release", "abort"), ("abort", "release"), ("abort", "abort")):
         for d in (0, 1, 3):
             scenarios.append({"req": ["echo", req_last], "acc": acc, "acc_delay_ms": d, "reject": False, "shake": True, "timeouts": 0.5})
     results = e2e.run_many(scenarios, ctx.seed, workers=12)
-    good = [r for r in results if "harness_error" not in r and not r.get("hang")]
+    good = [r for r in results if "harness_error" not in r and not r.get("hang") and not r.get("inconclusive")]
+    for r in results:
+        if r.get("inconclusive") and not r.get("hang") and "harness_error" not in r:
+            ctx.diff(["scenario", r["script"]], r["inconclusive"], "established", "association could not be established even alone with long timeouts")
     for r in results:
         if r.get("hang"):
             case = ["scenario", r["script"], "hang"]
@@ -387,6 +391,94 @@ def pause_scenario(mode="collision"):
         srv.shutdown()
 
 
+def query_break_scenario(args):
+    """The requestor runs a C-FIND / C-GET with no matches, takes the final status with a single next() and never
+    touches the generator again; then the ACCEPTOR releases (or nothing happens and the requestor's network timeout
+    must end the association).  Both sides must still end, with the same outcome."""
+    import threading
+    import time
+
+    from pydicom.dataset import Dataset
+    from pynetdicom import AE, evt
+    from pynetdicom.sop_class import PatientRootQueryRetrieveInformationModelFind as F, PatientRootQueryRetrieveInformationModelGet as G
+
+    kind, ending = args
+    e2e.quiet()
+    before = set(e2e.pynet_threads())
+    acc, hist = {}, {"req": [], "acc": []}
+    t_o = 1.0
+
+    def h_find(event):
+        return
+        yield  # noqa: a generator with no matches
+
+    def h_get(event):
+        yield 0
+
+    ae = AE()
+    ae.add_supported_context(F)
+    ae.add_supported_context(G)
+    ae.acse_timeout = ae.dimse_timeout = 3.0
+    ae.network_timeout = 30.0
+    srv = ae.start_server(
+        ("127.0.0.1", 0), block=False,
+        evt_handlers=[(evt.EVT_C_FIND, h_find), (evt.EVT_C_GET, h_get), (evt.EVT_ESTABLISHED, lambda e: acc.__setitem__("a", e.assoc)),
+                      (evt.EVT_RELEASED, lambda e: hist["acc"].append("released")), (evt.EVT_ABORTED, lambda e: hist["acc"].append("aborted"))],
+    )
+    out = {"kind": kind, "ending": ending}
+    try:
+        cl = AE()
+        cl.add_requested_context(F)
+        cl.add_requested_context(G)
+        cl.acse_timeout = cl.dimse_timeout = 3.0
+        cl.network_timeout = t_o if ending == "network-timeout" else 30.0
+        a = cl.associate("127.0.0.1", srv.socket.getsockname()[1],
+                         evt_handlers=[(evt.EVT_RELEASED, lambda e: hist["req"].append("released")), (evt.EVT_ABORTED, lambda e: hist["req"].append("aborted"))])
+        if not a.is_established:
+            return {"error": "not established"}
+        ident = Dataset()
+        ident.QueryRetrieveLevel, ident.PatientName = "PATIENT", "*"
+        gen = a.send_c_find(ident, F) if kind == "find" else a.send_c_get(ident, G)
+        st, _ = next(gen)
+        out["final_status"] = getattr(st, "Status", None)
+        out["gen"] = None  # the generator object stays referenced (not closed, not exhausted) until the end
+        time.sleep(0.1)
+        if ending == "acceptor-release":
+            threading.Thread(target=acc["a"].release, daemon=True).start()
+        limit = 3 * 3.0 + 2.0
+        leaks = e2e.wait_quiet(before, limit)
+        b = acc["a"]
+        out.update(leaks=leaks, req=[a.is_released, a.is_aborted, a.is_established], acc=[b.is_released, b.is_aborted, b.is_established],
+                   req_events=list(hist["req"]), acc_events=list(hist["acc"]))
+        del gen
+        return out
+    finally:
+        srv.shutdown()
+
+
+def query_break_check(ctx):
+    import multiprocessing as mp
+
+    jobs = [(k, e) for k in ("find", "get") for e in ("acceptor-release", "network-timeout")]
+    pool = mp.get_context("fork").Pool(processes=4, maxtasksperchild=1)
+    try:
+        results = pool.map(query_break_scenario, jobs)
+    finally:
+        pool.terminate()
+        pool.join()
+    for job, r in zip(jobs, results):
+        case = ["query-break", *job]
+        ctx.case(case, nontrivial=True, kind=f"query-break:{job[0]}:{job[1]}")
+        if "error" in r:
+            ctx.diff(case, r, "n/a", "scenario harness failed")
+            continue
+        want = [True, False, False] if job[1] == "acceptor-release" else [False, True, False]
+        if r["leaks"] or r["req"] != want or r["acc"] != want or len(r["req_events"]) != 1 or len(r["acc_events"]) != 1:
+            ctx.fail(f"c06:does-not-end-after-final-status:{job[0]}:{job[1]}",
+                     f"requestor took the final status of a C-{job[0].upper()} with one next() and stopped; then {job[1]}: requestor [released, aborted, established]={r['req']} "
+                     f"events {r['req_events']}, acceptor {r['acc']} events {r['acc_events']}, threads left {r['leaks']}", case)
+
+
 def pause_check(ctx):
     import multiprocessing as mp
 
@@ -427,6 +519,11 @@ def replay(ctx, case):
     import random
 
     c = case["case"]
+    if c[0] == "query-break":
+        r = query_break_scenario((c[1], c[2]))
+        print(r)
+        want = [True, False, False] if c[2] == "acceptor-release" else [False, True, False]
+        return 0 if not r.get("leaks") and r.get("req") == want and r.get("acc") == want else 1
     if c[0] == "pause-handshake":
         r = pause_scenario(c[1] if len(c) > 2 else "collision")
         print(r)
